@@ -203,6 +203,9 @@ func (d *decoder) decodeFileData() error {
 				return fmt.Errorf("parsing compressed timestamp message: %w", err)
 			}
 			if msg.IsValid() {
+				if err = d.checkFileIdType(msg); err != nil {
+					return err
+				}
 				d.file.add(msg)
 			}
 		case (b & mesgDefinitionMask) == mesgDefinitionMask:
@@ -217,6 +220,9 @@ func (d *decoder) decodeFileData() error {
 				return fmt.Errorf("parsing data message: %w", err)
 			}
 			if msg.IsValid() {
+				if err = d.checkFileIdType(msg); err != nil {
+					return err
+				}
 				d.file.add(msg)
 			}
 		default:
@@ -224,6 +230,21 @@ func (d *decoder) decodeFileData() error {
 		}
 	}
 
+	return nil
+}
+
+var fileIdMsgType = reflect.TypeOf(FileIdMsg{})
+
+// checkFileIdType rejects a further file_id message that changes the file
+// type: the typed container was created from the first one, and the accessors
+// and the encoder select it by the current file_id type.
+func (d *decoder) checkFileIdType(msg reflect.Value) error {
+	if msg.Type() != fileIdMsgType {
+		return nil
+	}
+	if t := FileType(msg.FieldByName("Type").Uint()); t != d.file.FileId.Type {
+		return FormatError(fmt.Sprintf("file_id message changes file type from %v to %v", d.file.FileId.Type, t))
+	}
 	return nil
 }
 
